@@ -193,9 +193,10 @@ def versions(ir):
     st = lambda name, *fields: ir.struct(name, [ir.field(f, u32) for f in fields])
     unit = ir.struct("WithUnit", [ir.field("u", ir.special("Unit"))])   # makes Swift emit CodableVoid / Codable.swift
     return {
-        "v1": {"a": [st("Keep", "x"), st("Extra", "y", "z"), st("Moved", "m")], "b": [st("Other", "o"), unit]},
+        # (items in the order reconcile_aliases leaves them: sorted by name)
+        "v1": {"a": [st("Extra", "y", "z"), st("Keep", "x"), st("Moved", "m")], "b": [st("Other", "o"), unit]},
         "v2": {"a": [st("Keep", "x")], "b": [st("Other", "o"), unit]},
-        "v3": {"a": [st("Keep", "x")], "b": [st("Other", "o"), unit, st("Moved", "m")]},
+        "v3": {"a": [st("Keep", "x")], "b": [st("Moved", "m"), st("Other", "o"), unit]},
         "v4": {"a": [st("Kept", "x")], "b": [st("Other", "o"), unit]},
     }
 
